@@ -47,9 +47,9 @@ ASSUMPTIONS = [
     "operations whose plain-tensor execution raises are outside the domain (not enabled)",
     "programs are not continued from plain-Tensor results nor from results that already violated the property",
 ]
-MIN_NONTRIVIAL = {"quick": 1500, "thorough": 6000}
-MIN_OUTCOMES = {"quick": 1500, "thorough": 6000}
-MIN_SUB_TRACES = {"programs": 10000, "copy": 200}
+MIN_NONTRIVIAL = {"quick": 1200, "thorough": 8000}
+MIN_OUTCOMES = {"quick": 3500, "thorough": 15000}
+MIN_SUB_TRACES = {"programs": 25000, "copy": 500}
 
 KINDS = ("ImageBatch", "Image", "FlowFields", "FlowField")
 
@@ -516,6 +516,18 @@ def _build_alphabet():
 
 _build_alphabet()
 
+# second operation of the quick tier: the length-3 menu plus one or two more forms per mechanism
+MENU2 = MENU + [
+    "mul(2)", "add(self)", "add_(1)", "where(gt0,x,x)", "zeros_like", "sum(1,keepdim=True)", "getitem(0)", "getitem(::2)",
+    "getitem(tensor(2,0))", "getitem(ellipsis)", "getitem(None)", "getitem(list(2,0),0:1)", "narrow(1,1,2)", "narrow(2,1,2)",
+    "narrow(-1,1,2)", "select(0,1)", "index_select(1,(0))", "cat(x,x;dim=1)", "cat(x,x;1)", "stack(x,x;dim=0)", "split(1,dim=1)",
+    "split_with_sizes(list(1,n-1))", "unbind(1)", "tensor_split(list(1,2))", "tensor_split(tensor(1,2))", "flip(2)", "flip(0,2)",
+    "roll(1,2)", "rot90(2,(0,2))", "take_along_dim(perm,0)", "reversed", "permute(1,0,rest)", "repeat(1,2,1s)",
+    "repeat_interleave(2,dim=0)", "flatten(0,1)", "reshape(same)", "interpolate(scale=2)", "max_pool(1)", "avg_pool(2)",
+    "float()", "to(same_dtype)", "long()", "contiguous()", "data", "torch.save_load",
+]
+assert all(n in OPS for n in MENU2) and len(set(MENU2)) == len(MENU2)
+
 
 def dims_for(tier):
     return (2,) if tier == "quick" else (2, 3)
@@ -528,8 +540,10 @@ def bounds(tier):
         "items_per_batch": {"D2": 3, "D3": 4},
         "alphabet": len(ORDER),
         "menu_for_length_3": len(MENU),
+        "second_operation_menu": len(MENU2) if tier == "quick" else len(ORDER),
         "program_length_full_alphabet": 2,
         "program_length_menu": 2 if tier == "quick" else 3,
+        "program_length_menu_applies_to": "D=2",
         "tuple_results_continued_from": "elements 0, 1 and last",
     }
 
@@ -880,7 +894,7 @@ def _explore(acc: Acc, tier, D, kind, steps, depth_full, depth_menu):
         return
     in_menu = all(n in MENU for n in names)
     if depth_full > 1:
-        nxt, df, dm = ORDER, depth_full - 1, depth_menu - 1
+        nxt, df, dm = (MENU2 if tier == "quick" else ORDER), depth_full - 1, depth_menu - 1
     elif depth_menu > 1 and in_menu:
         nxt, df, dm = MENU, 0, depth_menu - 1
     else:
@@ -897,7 +911,7 @@ def _explore(acc: Acc, tier, D, kind, steps, depth_full, depth_menu):
 def run_shard(shard) -> Acc:
     acc = Acc()
     tier = shard["tier"]
-    depth_menu = 2 if tier == "quick" else 3
+    depth_menu = 3 if (tier == "thorough" and shard["D"] == 2) else 2
     Universe.get(shard["D"])
     acc.state("initial", shard["D"], shard["kind"])
     _explore(acc, tier, shard["D"], shard["kind"], [[shard["first"], None]], 2, depth_menu)
